@@ -38,10 +38,12 @@ def gen_fasta(rng, n, gene_share, with_gene=None, max_len=40):
         seq = "".join(rng.choice("ACDEFGHIKLMNPQRSTVWY") for _ in range(rng.randint(1, max_len)))
         f["len"] = len(seq)
         fields.append(f)
-        lines.append(">" + h + "\n")
+        # trailing blanks / tabs at the end of header and sequence lines (files that went through a spreadsheet or a Windows editor)
+        pad = (lambda: rng.choice(["", "", "", " ", "\t", "  "])) if rng.random() < 0.3 else (lambda: "")
+        lines.append(">" + h + pad() + "\n")
         w = rng.choice([7, 60])
         for j in range(0, len(seq), w):
-            lines.append(seq[j:j + w] + "\n")
+            lines.append(seq[j:j + w] + pad() + "\n")
     if with_gene is None and rng.random() < 0.3 and n > 0:          # repeated identifier within the file: the first record must win
         h, f = compose(rng, 0, True)
         lines.append(">" + fields[0]["id"] + " Another description OS=Mus musculus OX=1 GN=OTHER PE=2 SV=1\nAAAA\n")
